@@ -91,8 +91,19 @@ def run(module, prop, tier, plan, describe, assumptions=()):
     log_dir = os.path.join(VERIF, "replays", "logs")
     os.makedirs(log_dir, exist_ok=True)
     print(f"[{prop}] tier={tier} VERIF_SEED={master} runs={sum(len(g['indices']) for g in plan['groups'])} workers={plan.get('n_workers', 16)}", flush=True)
+    total = sum(len(g["indices"]) for g in plan["groups"])
+    prog = {"n": 0, "viol": 0, "t": time.time()}
+
+    def on_result(obj):
+        prog["n"] += 1
+        if obj.get("verdict") == "violation":
+            prog["viol"] += 1
+        if time.time() - prog["t"] > 120:
+            prog["t"] = time.time()
+            print(f"[{prop}] ... {prog['n']}/{total} runs, {prog['viol']} violating so far, {time.time() - t0:.0f}s", flush=True)
+
     results, errors, skipped = driver.run_batch(
-        module, plan["groups"], master, cfg, n_workers=plan.get("n_workers", 16), chunk=plan.get("chunk", 25),
+        module, plan["groups"], master, cfg, on_result=on_result, n_workers=plan.get("n_workers", 16), chunk=plan.get("chunk", 25),
         wall_per_chunk=plan.get("wall_per_chunk", 300.0), recycle_after=plan.get("recycle_after"), log_dir=log_dir, deadline=deadline)
     stats = evidence.Counter()
     faults = evidence.Counter()
